@@ -143,7 +143,9 @@ func scenarioStart(c *hlib.RunCtx) *hlib.Violation {
 	switch modeKind {
 	case 0:
 		// as the commands write it, or written by hand (no date, white space around it)
-		content := []string{mode + " 2024-01-01", mode, mode + "\n", mode + " 2024-01-01\n", mode + "\r\n", " " + mode, mode + " "}[t.Biased(7, 1, 2)]
+		content := []string{mode + " 2024-01-01", mode, mode + "\n", mode + " 2024-01-01\n", mode + "\r\n", " " + mode, mode + " ",
+			// a date that is not YYYY-MM-DD (written by hand, by another tool): the first word is still the mode
+			mode + " 2024-1-5", mode + " 2024/01/05", mode + " 2024-01-05T00:00:00Z"}[t.Biased(10, 1, 2)]
 		os.WriteFile(filepath.Join(tele, "mode"), []byte(content), 0666)
 	case 1:
 		mode = "local"
